@@ -380,6 +380,10 @@ RuleFamily == {
     Bad(IfaceHost, "X_if_instmig", "instantiate_in_interface", AddMember(AddMember(IfaceHost, [H("instantiate", "instantiate", <<>>) EXCEPT !.body = ""]),
                                                                          [H("migrate", "migrate", <<>>) EXCEPT !.body = ""])),
     Bad(IfaceHost, "X_if_gen", "generics_on_interface", [IfaceHost EXCEPT !.self_ty = "Iface<T>"]),
+    \* ... of whatever kind: a lifetime, a (defaulted) constant, a constant after a lifetime
+    Bad(IfaceHost, "X_if_gen_lt", "generics_on_interface", [IfaceHost EXCEPT !.self_ty = "Iface<'a>"]),
+    Bad(IfaceHost, "X_if_gen_const", "generics_on_interface", [IfaceHost EXCEPT !.self_ty = "Iface<const MAX: u64 = 10>"]),
+    Bad(IfaceHost, "X_if_gen_ltconst", "generics_on_interface", [IfaceHost EXCEPT !.self_ty = "Iface<'a, const N: u8>"]),
     Bad(IfaceHost, "X_if_noerr", "interface_without_error_type", [IfaceHost EXCEPT !.noerror = TRUE]),
     Bad(RuleHost, "X_kind", "unknown_message_kind", SetMember(RuleHost, 3, [RuleHost.members[3] EXCEPT !.attrs = <<A("sv::msg", "execute")>>])),
     Bad(RuleHost, "X_msgarg", "unknown_sv_msg_argument", SetMember(RuleHost, 3, [RuleHost.members[3] EXCEPT !.attrs = <<A("sv::msg", "exec, foo = bar")>>])),
